@@ -14,13 +14,18 @@ PROPS["C13"] = dict(
              codes={21: "random.begin-block-abort", 22: "random.queue-hygiene", 23: "random.request-not-fulfilled-at-due-height"}),
         dict(name="farm", quick=48, thorough=1200, check_module="Queues.CheckFarm", check_fn="check_farm", case_type="fcase", coq_shard=6,
              codes={31: "farm.end-block-abort", 32: "farm.queue-hygiene", 33: "farm.pool-not-closed-exactly-once-at-end-height"}),
+        dict(name="service", quick=48, thorough=1200, check_module="Queues.CheckService", check_fn="check_service", case_type="scase", coq_shard=6,
+             codes={41: "service.end-block-abort", 42: "service.queue-hygiene", 43: "service.batch-not-handled-exactly-once-at-due-height"}),
     ],
     rule="per module one stream of histories interleaving object creation / modification / closing with block "
          "boundaries (block times advancing by 1..10^5 s), several objects due at one height, operations attempted in "
          "the block an object falls due; non-trivial = an object is modified or closed (or that is attempted) in the "
          "block it falls due or the block before, or >= 2 objects fall due together; distinct = by hash of the history",
     codes={},
-    explain={31: "the farm end-blocker aborted",
+    explain={41: "the service end-blocker aborted",
+             42: "service batch queues: duplicate entry, entry behind the current height, entry without context or height marker, marker without entry, a context in both queues, or a running context in neither",
+             43: "a batch entry vanished outside the end-blocker of its height, or the end-blocker handled a new batch without starting/skipping it and scheduling its expiration, or an expiration without completing the batch",
+             31: "the farm end-blocker aborted",
              32: "farm active-pool queue: duplicate entry, entry behind the current height, entry without a pool ending at that height, or a live pool without its entry",
              33: "a farm pool that had left the queue came back or changed its end height, or the end-blocker left / mis-drained an entry of its height, or drained a pool without refunding it",
              21: "the random begin-blocker aborted in a block whose time is not 0",
